@@ -53,6 +53,26 @@ type SimChain struct {
 
 	// counters (activity measure for quiescence detection)
 	calls int
+
+	// saidUnspent: outpoints GetUtxo reported as unspent since the simulator
+	// last cleared the set (once per step). A channel whose funding output is
+	// spent by a block that arrives while its announcement is being handled
+	// was validated against this answer.
+	saidUnspent map[wire.OutPoint]bool
+}
+
+// SaidUnspent: GetUtxo answered "unspent" for op since the last ClearAnswers.
+func (c *SimChain) SaidUnspent(op wire.OutPoint) bool {
+	c.mu.Lock()
+	defer c.mu.Unlock()
+	return c.saidUnspent[op]
+}
+
+// ClearAnswers forgets the answers recorded so far.
+func (c *SimChain) ClearAnswers() {
+	c.mu.Lock()
+	defer c.mu.Unlock()
+	c.saidUnspent = nil
 }
 
 // NewSimChain creates a chain with a genesis block only.
@@ -275,6 +295,10 @@ func (c *SimChain) GetUtxo(op *wire.OutPoint, _ []byte, _ uint32,
 	if _, spent := c.spentAt[*op]; spent {
 		return nil, btcwallet.ErrOutputSpent
 	}
+	if c.saidUnspent == nil {
+		c.saidUnspent = map[wire.OutPoint]bool{}
+	}
+	c.saidUnspent[*op] = true
 	return &wire.TxOut{Value: out.Value, PkScript: out.PkScript}, nil
 }
 
